@@ -71,7 +71,8 @@ build_stacked_analysis(cfg, W, Y, Rs, Ns, group_sizes=None, params=(), masks=Non
                                                 llhratios, multi, services=(dsy, sdw, dswf)); one call builds the
                                                 whole J-dataset, K-source stacked analysis: W (K,) source weights,
                                                 Y (J, K) yields, Rs[j] (K, E_j) ratio tables, Ns[j] total event counts
-                                                (>= E_j), masks[j] optional (K, E_j) event-selection masks
+                                                (>= E_j, or None = default), masks[j] optional (K, E_j) event-selection masks;
+                                                keyword share=False is passed to the StubPDFRatios
 fitparam_values(pmm, ns, **others)           -> (n_floating,) array in the pmm's floating-parameter order
 """
 import collections
@@ -492,11 +493,13 @@ Bundle = collections.namedtuple(
 
 
 def build_stacked_analysis(cfg, W, Y, Rs, Ns, group_sizes=None, params=(), masks=None, dR=None, dY=None,
-                           weighted=True, index_field_name=None, event_fields=None):
+                           weighted=True, index_field_name=None, event_fields=None, share=False):
     """J datasets, K sources.  W (K,), Y (J, K) [array or callable], Rs[j] (K, E_j) [array or callable],
     Ns[j] >= E_j total events, masks[j] None | (K, E_j) bool, dR: None | list over j of dict name -> table,
     event_fields: None | list over j of dict of extra event fields.  With weighted=False (K must be 1 or the
-    tables are used for source 0 only) the per-dataset ratio is the bare StubPDFRatio."""
+    tables are used for source 0 only) the per-dataset ratio is the bare StubPDFRatio.  Ns[j] may be None
+    (n_events left to its default = number of raw events).  share=True: the stub ratios hand out their stored
+    array without a copy (see StubPDFRatio)."""
     from skyllh.core.pdfratio import SourceWeightedPDFRatio
     K = len(W)
     J = len(Rs)
@@ -513,7 +516,7 @@ def build_stacked_analysis(cfg, W, Y, Rs, Ns, group_sizes=None, params=(), masks
             esm = StubEventSelection(shg_mgr, masks[j])
         ev = make_events(E, **((event_fields[j] if event_fields else None) or {}))
         tdm = make_tdm(shg_mgr, pmm, ev, n_events=Ns[j], evt_sel_method=esm, index_field_name=index_field_name)
-        r = StubPDFRatio(cfg, Rj, dR=(dR[j] if dR else None))
+        r = StubPDFRatio(cfg, Rj, dR=(dR[j] if dR else None), share=share)
         inner.append(r)
         if weighted:
             r = SourceWeightedPDFRatio(dataset_idx=j, src_detsigyield_weights_service=sdw, pdfratio=r, cfg=cfg)
